@@ -507,8 +507,9 @@ def run(ctx: Ctx) -> None:
     # 'filled by the first bar that reaches it' needs every open order of the bar's pair to be processed on every bar: the open-order
     # index must not lose orders (shared with C05.5, reported here as C04.5)
     from . import c05
-    ctx.rule_map = {"C05.5": "C04.5"}
+    ctx.rule_map = {"C05.5": "C04.5", "C05.2": "C04.5"}
     try:
+        c05.rule_fill_or_kill(ctx)
         c05.rule_listings(ctx)
     finally:
         ctx.rule_map = {}
